@@ -755,6 +755,9 @@ func c10Env() map[string]interface{} {
 		"M": 1, "MS": "m", "A": []int{10, 20, 30, 40, 50}, "I": 2, "S": "str",
 		"Add": func(a, b int) int { return a + b }, "Obj": c10Obj{Base: 100},
 		"V": c10Vec{1, 2, 3}, "W": c10Vec{10, 20, 30},
+		"StrEq": func(a, b string) bool { return strings.EqualFold(a, b) },
+		"Dbl":   func(a int) int { return 2 * a },
+		"Sq":    func(a int) int { return a * a },
 		"AddVec": func(a, b c10Vec) c10Vec {
 			out := make(c10Vec, len(a))
 			for i := range a {
@@ -778,6 +781,21 @@ func (p *c10MarkPatcher) Exit(node *ast.Node) {
 		case "MS":
 			p.hits++
 			ast.Patch(node, &ast.StringNode{Value: "patched"})
+		}
+	}
+}
+
+// the macro idiom: Dbl(x) => x + x, Sq(x) => x * x, the argument node used in BOTH slots
+type c10MacroPatcher struct{}
+
+func (c10MacroPatcher) Enter(*ast.Node) {}
+func (c10MacroPatcher) Exit(node *ast.Node) {
+	if f, ok := (*node).(*ast.FunctionNode); ok && len(f.Arguments) == 1 {
+		switch f.Name {
+		case "Dbl":
+			ast.Patch(node, &ast.BinaryNode{Operator: "+", Left: f.Arguments[0], Right: f.Arguments[0]})
+		case "Sq":
+			ast.Patch(node, &ast.BinaryNode{Operator: "*", Left: f.Arguments[0], Right: f.Arguments[0]})
 		}
 	}
 }
@@ -985,6 +1003,57 @@ func c10EndToEnd(rep *Report) {
 		if gerr != nil || !reflect.DeepEqual(got, want) {
 			rep.fail(Failure{Key: "C10-e2e-operator", What: "operator overloading does not apply at position: " + c.position, Input: input,
 				Want: fmt.Sprintf("%v (= explicit call)", want), Got: fmt.Sprintf("%v (error %v)", got, gerr), Replay: string(rp)})
+		}
+	}
+	// TWO overloaded operators: an occurrence whose operand types find no candidate under one operator (the built-in applies)
+	// does not stop a LATER occurrence of the other operator on operands of the same types from being overloaded
+	for _, c := range []c10E2E{
+		{"miss under + before a hit under == on the same operand types", "S + \"X\" == \"STRx\""},
+		{"miss under + before a hit under == (closure body)", "map([S], {# + \"\" == \"STR\"})[0]"},
+		{"hit under == before a miss under +", "[S == \"STR\", S + \"x\"]"},
+		{"miss under + (ints) then hit under + (vectors)", "[I + 1, (V + W)[0]]"},
+	} {
+		rep.Evaluations++
+		rep.hist("e2e " + c.position)
+		got, gerr := c10RunSrc(c.src, expr.Operator("+", "AddVec"), expr.Operator("==", "StrEq"))
+		explicit := strings.ReplaceAll(c.src, "V + W", "AddVec(V, W)")
+		explicit = strings.ReplaceAll(explicit, "S + \"X\" == \"STRx\"", "StrEq(S + \"X\", \"STRx\")")
+		explicit = strings.ReplaceAll(explicit, "# + \"\" == \"STR\"", "StrEq(# + \"\", \"STR\")")
+		explicit = strings.ReplaceAll(explicit, "S == \"STR\"", "StrEq(S, \"STR\")")
+		want, werr := c10RunSrc(explicit)
+		input := map[string]interface{}{"e2e": c.src, "operators": "+ => AddVec, == => StrEq", "position": c.position}
+		rp, _ := json.Marshal(input)
+		if werr != nil {
+			rep.fail(Failure{Key: "C10-e2e-baseline", What: "the explicit-call form does not compile and run", Input: input, Want: "a result", Got: werr.Error(), Replay: string(rp)})
+			continue
+		}
+		if gerr != nil || !reflect.DeepEqual(got, want) {
+			rep.fail(Failure{Key: "C10-e2e-operator", What: "operator overloading does not apply at position: " + c.position, Input: input,
+				Want: fmt.Sprintf("%v (= %s)", want, explicit), Got: fmt.Sprintf("%v (error %v)", got, gerr), Replay: string(rp)})
+		}
+	}
+	// a user visitor whose replacement uses ONE operand node in TWO slots (the macro idiom Dbl(x) => x + x): every later stage
+	// treats the two slots as the tree they are - the optimized program answers like the unoptimized one
+	for _, c := range []c10E2E{
+		{"shared operand, constant arithmetic", "Dbl(2 + 3)"}, {"shared operand, constant arithmetic", "Sq(1 + 2)"}, {"shared operand, nested macros", "Dbl(Dbl(1 + 2))"},
+		{"shared operand, unary minus", "Sq(-3)"}, {"shared operand in a closure body", "map(A, {Dbl(1 + 1) + #})"}, {"shared operand, non-constant", "Dbl(I + 3)"},
+		{"shared operand under index", "A[Dbl(0 + 1)]"}, {"shared operand, product of sums", "Sq(2 * 3 + 1) - Dbl(4 / 2)"},
+	} {
+		rep.Evaluations++
+		rep.hist("e2e " + c.position)
+		input := map[string]interface{}{"e2e": c.src, "visitor": "Dbl(x) => x + x, Sq(x) => x * x (one node in two slots)", "position": c.position}
+		rp, _ := json.Marshal(input)
+		want, werr := c10RunSrc(c.src, expr.Patch(c10MacroPatcher{}), expr.Optimize(false))
+		got, gerr := c10RunSrc(c.src, expr.Patch(c10MacroPatcher{}), expr.Optimize(true))
+		plain, perr := c10RunSrc(c.src)
+		if werr != nil || perr != nil || !reflect.DeepEqual(want, plain) {
+			rep.fail(Failure{Key: "C10-e2e-baseline", What: "the macro-expanded source (unoptimized) does not answer like the function calls", Input: input,
+				Want: fmt.Sprintf("%v (error %v)", plain, perr), Got: fmt.Sprintf("%v (error %v)", want, werr), Replay: string(rp)})
+			continue
+		}
+		if gerr != nil || !reflect.DeepEqual(got, want) {
+			rep.fail(Failure{Key: "C10-e2e-patch", What: "a user patch that uses one node in two slots does not survive the optimizer: " + c.position, Input: input,
+				Want: fmt.Sprintf("%v (= unoptimized)", want), Got: fmt.Sprintf("%v (error %v)", got, gerr), Replay: string(rp)})
 		}
 	}
 	// operator overloading TOGETHER with a user visitor that repairs an expression which does not type-check before
